@@ -166,7 +166,10 @@ class GModel:
             out.append((t.name, rng.choice(t.samples)))
             return
         r = self.rule_by_name[sym]
-        alts = r.alts
+        # never walk into an alternative that cannot derive a string
+        alts = [a for a in r.alts if self.alt_h(a) < 10**6]
+        if not alts:
+            return
         if depth <= 0 or len(out) > 40:
             mh = min(self.alt_h(a) for a in alts)
             alts = [a for a in alts if self.alt_h(a) == mh]
